@@ -549,7 +549,7 @@ func ruleC16R5(c *Ctx) {
 			c.ok("C16.R5", r.Fn, construct, r.O.In.Pos(), why)
 		default:
 			key := f6Key(r.Fn, r.O, r.Why)
-			if reason, ok := c16R5Reviewed[key]; ok {
+			if reason, ok := lookupReviewed(c16R5Reviewed, key); ok {
 				nR++
 				c.assumed("C16.R5", r.Fn, construct, r.O.In.Pos(), "reviewed: "+reason)
 				continue
